@@ -112,6 +112,10 @@ def atom(e: ast.AST, aliases=None) -> tuple[str, bool]:
         pol = not pol
     if isinstance(e, ast.Compare) and len(e.ops) == 1:
         l, op, r = e.left, e.ops[0], e.comparators[0]
+        # emptiness tests written with len(): `len(x) == 0` is `not x`, `len(x) > 0` / `!= 0` / `>= 1` is `x`
+        t = _len_truth(l, op, r)
+        if t is not None:
+            return (ast.unparse(t[0]), pol if t[1] else not pol)
         L, R = ast.unparse(l), ast.unparse(r)
         if isinstance(op, ast.NotEq):
             return (f"{min(L, R)} == {max(L, R)}", not pol)
@@ -134,6 +138,35 @@ def atom(e: ast.AST, aliases=None) -> tuple[str, bool]:
         if isinstance(op, ast.LtE):
             return (f"{R} < {L}", not pol)
     return (ast.unparse(e), pol)
+
+
+def _len_truth(l, op, r):
+    """(container expr, truthy?) if the comparison is an emptiness test on len(container), else None"""
+    def is_len(x):
+        return isinstance(x, ast.Call) and isinstance(x.func, ast.Name) and x.func.id == "len" and len(x.args) == 1 and not x.keywords
+
+    def const(x):
+        return x.value if isinstance(x, ast.Constant) and isinstance(x.value, int) and not isinstance(x.value, bool) else None
+
+    flip = {ast.Lt: ast.Gt, ast.Gt: ast.Lt, ast.LtE: ast.GtE, ast.GtE: ast.LtE, ast.Eq: ast.Eq, ast.NotEq: ast.NotEq}
+    if is_len(r) and const(l) is not None and type(op) in flip:
+        l, r, op = r, l, flip[type(op)]()
+    if not (is_len(l) and const(r) is not None):
+        return None
+    c, x = const(r), l.args[0]
+    if isinstance(op, ast.Eq) and c == 0:
+        return (x, False)
+    if isinstance(op, ast.NotEq) and c == 0:
+        return (x, True)
+    if isinstance(op, ast.Gt) and c == 0:
+        return (x, True)
+    if isinstance(op, ast.GtE) and c == 1:
+        return (x, True)
+    if isinstance(op, ast.Lt) and c == 1:
+        return (x, False)
+    if isinstance(op, ast.LtE) and c == 0:
+        return (x, False)
+    return None
 
 
 def F(text: str, aliases=None) -> tuple[str, bool]:
